@@ -217,7 +217,7 @@ pub fn run_schedule(rec: &mut Rec, seed: u64, run: u64, line: &str) {
         let u = p.f.user.clone();
         let rs = p.f.w.exec(&u, &p.f.hub.distributor.clone(), &DistExec::NewEpoch {}, &[]);
         let dpost = p.f.w.digest();
-        rec.emit(json!({"ev": "newepoch", "run": run, "step": step, "actor": "user1", "args": {"round": round}, "pre": {"expiring_available": s(expiring)},
+        rec.emit(json!({"ev": "newepoch", "run": run, "step": step, "actor": "user1", "args": {"round": round, "route": route}, "pre": {"expiring_available": s(expiring)},
             "res": rs.tag(), "err": jerr(&rs.err()), "dpre": dpre, "dpost": dpost, "obs": p.obs()}));
         step += 1;
         if !rs.is_ok() { break; }
@@ -239,7 +239,7 @@ pub fn run_schedule(rec: &mut Rec, seed: u64, run: u64, line: &str) {
                 let dpre = p.f.w.digest();
                 let rs = p.f.w.exec(&u, &p.f.hub.distributor.clone(), &DistExec::NewEpoch {}, &[]);
                 let dpost = p.f.w.digest();
-                rec.emit(json!({"ev": "newepoch", "run": run, "step": step, "actor": "user1", "args": {"round": round}, "pre": {"expiring_available": s(expiring)},
+                rec.emit(json!({"ev": "newepoch", "run": run, "step": step, "actor": "user1", "args": {"round": round, "route": route}, "pre": {"expiring_available": s(expiring)},
                     "res": rs.tag(), "err": jerr(&rs.err()), "dpre": dpre, "dpost": dpost, "obs": p.obs()}));
                 step += 1;
             }
